@@ -450,8 +450,13 @@ class SignalNamespace:
         n = self.sigs.get(sig)
         if n is None:
             n = self.counts.get(sig_name, 0)
+            # Skip numbered candidates already in use (e.g. a signal named "x_1" next to a numbered "x").
+            while n > 0 and f"{sig_name}_{n}" in self.counts:
+                n += 1
             self.sigs[sig] = n
             self.counts[sig_name] = n + 1
+            if n > 0:
+                self.counts[f"{sig_name}_{n}"] = 1
         # If the count is greater than 0, append it to the signal name.
         if n > 0:
             sig_name += f"_{n}"
